@@ -82,6 +82,8 @@ def size_of_class(cls, rng, big=300 * 1024):
 def norm_all(op, out):
     """normalisation shared by generators that mix op families: `X read` prints `<n> <hex>`, scripted joins print `ok <joins>`"""
     import re as _re
+    if out == "unsupported":
+        return out
     if op.startswith("X read "):
         parts = out.split(" ")
         want = op.split(" ")[3]
@@ -93,3 +95,19 @@ def norm_all(op, out):
     if (op.startswith("H updsj ") or op.startswith("C updtbb ")) and _re.match(r"^ok \d+$", out):
         return "ok"
     return out
+
+
+def cross_mode_clone_script(rng, plat):
+    """Clone::clone_from into a hasher that was built with a DIFFERENT key / mode and has its own history: afterwards the destination
+    must describe exactly the source's bytes under the source's key (every field travels), also once it leaves the current chunk"""
+    from ..core import Script
+    kinds = ["hash", "keyed", "derive"]
+    ka = rng.choice(kinds)
+    kb = rng.choice([k for k in kinds if k != ka] + ["keyed"])
+    ops = [f"P plat {plat}", f"H new a {mode_tok(rng, ka)}", f"H new b {mode_tok(rng, kb)}"]
+    ops.append(f"H upd a {pat(rng.choice([0, 1, 64, 1000, 1024, 1025, 3000, 70000]), rng)}")
+    if rng.random() < 0.6:
+        ops.append(f"H upd b {pat(rng.choice([1, 1024, 5000, 40000]), rng)}")
+    ops += ["H clonefrom a b", "H cnt b", "H fin b", f"H upd b {pat(rng.choice([1, 30, 1024, 1100, 2049, 9000]), rng)}", "H cnt b", "H fin b",
+            "H xof b x", "X fill x 70", f"H upd a {pat(rng.choice([5, 2000]), rng)}", "H fin a", "H reset b", f"H upd b {pat(rng.choice([3, 1500]), rng)}", "H fin b"]
+    return Script(ops, tags=(plat, "clone_from-cross-mode"), nontrivial=True)
